@@ -20,6 +20,7 @@
    B  Compare is the reference; every valid text is accepted
    C  local labels; numbers of 2^63 and more *)
 From Coq Require Import List NArith.
+From Verif Require GenTie.  (* ties of model constants to the generated tables *)
 From Verif.Base Require Import Bytes GoNum Ord.
 From Verif.Eco Require Import Iface.
 From Verif.Spec Require Pep440 Pep440Facts.
